@@ -317,6 +317,10 @@ class Server(object):
             up["confirmed"] = False
             return self.to_client(client.phone, tup("iq", {"id": t[1]["id"], "type": "error", "from": S_NET}, [tup("error", {"code": "500", "text": "internal-server-error"})]))
         # the server stores the keys when it processes the request, whether or not the reply gets through
+        if acc.identity is not None and acc.identity != up["identity"]:
+            # the account re-registered with a new identity (reinstall): keys of the old installation are void
+            acc.prekeys = []
+            self.world.count("srv_identity_changes")
         acc.identity, acc.registration, acc.djb_type, acc.skey = up["identity"], up["registration"], up["type"], up["skey"]
         acc.prekeys.extend(up["keys"])
         self.asked_low.discard(client.jid)
@@ -486,6 +490,7 @@ class World(object):
         AxolotlManager.COUNT_GEN_PREKEYS = batch
         self.decode_errors = []
         self.stale_writes = []
+        self.delivered = []        # (phone, tag, id, type, client generation) of every stanza handed to a client
 
     def close(self):
         from yowsup.axolotl.manager import AxolotlManager
@@ -501,11 +506,24 @@ class World(object):
         self.clients[phone] = c
         return c
 
-    def restart_client(self, phone):
+    def reinstall_client(self, phone):
+        """Fresh installation of the same account: new key store (new identity), same phone number and config."""
+        from yowsup.common.tools import StorageTools
+        old = self.clients[phone]
+        db = os.path.join(StorageTools.getStorageForProfile(old.profile_name), "axolotl.db")
+        c = self.restart_client(phone, wipe=db)
+        self.count("reinstalls")
+        return c
+
+    def restart_client(self, phone, wipe=None):
         old = self.clients[phone]
         if old.connected and old.dispatcher is not None:
             self.close_connection(old, old.dispatcher, notify=False)
         old.dead = True
+        if wipe:
+            for sfx in ("", "-journal", "-wal", "-shm"):
+                if os.path.exists(wipe + sfx):
+                    os.remove(wipe + sfx)
         c = Client(self, phone, modules=old.modules, props=old.props, generation=old.generation + 1)
         self.clients[phone] = c
         self.count("restarts")
@@ -538,6 +556,13 @@ class World(object):
             self.server.on_closed(client)
         if notify:
             client.guarded(lambda: d.connectionCallbacks.onDisconnected(), "onDisconnected")
+
+    def server_close(self, phone):
+        """The server (or the network) drops the connection: the client is told by its dispatcher."""
+        c = self.clients[phone]
+        if c.connected and c.dispatcher is not None:
+            self.close_connection(c, c.dispatcher, notify=True)
+            self.count("server_closes")
 
     def on_client_bytes(self, client, d, data):
         if d.state != "up" or getattr(client, "dead", False):
@@ -669,6 +694,7 @@ class World(object):
             if t[0] == "success":
                 c.authed = True
             self.count("delivered:" + t[0])
+            self.delivered.append((who, t[0], t[1].get("id"), t[1].get("type"), c.generation))
             c.guarded(lambda: c.dispatcher.connectionCallbacks.onRecvData(frame), "receive:" + t[0])
         elif kind == "pump":
             self.pump_one()
@@ -710,7 +736,7 @@ class World(object):
         if op in ("send", "raw", "iq"):
             c = self.clients[a["who"]]
             return c.ready()
-        if op == "restart":
+        if op in ("restart", "reinstall"):
             # only between messages: nothing at all is in flight (stronger than the quantifier asks, hence sound)
             return not self.enabled_no_app()
         if op == "connect":
@@ -743,6 +769,9 @@ class World(object):
             c.guarded(lambda: c.app.disconnect(), "disconnect")
         elif op == "restart":
             c = self.restart_client(a["who"])
+            c.guarded(lambda: c.app.connect(), "connect")
+        elif op == "reinstall":
+            c = self.reinstall_client(a["who"])
             c.guarded(lambda: c.app.connect(), "connect")
         elif op == "send":
             c = self.clients[a["who"]]
